@@ -55,6 +55,14 @@ class LenClass:
         return c
 
     @staticmethod
+    def _column_shape(args):
+        """shape arguments (-1, 1, ..., 1): the first axis keeps all elements, only unit axes are added"""
+        if len(args) == 1 and args[0].op in ("Tuple", "List"):
+            args = list(args[0].args)
+        vals = [a.attr if a.op == "Const" and isinstance(a.attr, int) else None for a in args]
+        return len(vals) >= 2 and vals[0] == -1 and all(v == 1 for v in vals[1:])
+
+    @staticmethod
     def _first_last(a, b):
         v = sorted(x.attr if x.op == "Const" and isinstance(x.attr, int) else None for x in (a, b)) \
             if all(x.op == "Const" and isinstance(x.attr, int) for x in (a, b)) else None
@@ -313,6 +321,8 @@ class LenClass:
                         "ravel", "conj", "round", "clip"):
                 return self.of(n.args[0])
             if name == "reshape" and len(n.args) >= 2:
+                if self._column_shape(n.args[1:]):
+                    return self.of(n.args[0])       # x.reshape(-1, 1): one row per element, the population is kept
                 # reshape(rows, ...) with rows the length of a per-event array restores that population
                 c = self.count_of(n.args[1])
                 if c is not None and is_def(c):
@@ -368,6 +378,8 @@ class LenClass:
             return TOP
         short = X.np_short(q)
         cat = X.category(q)
+        if q in ("builtins.int", "builtins.float", "builtins.bool", "builtins.str", "builtins.len", "builtins.complex"):
+            return S            # Python scalars
         if short in X.UFUNC1:
             return self.of(pos[0]) if pos else TOP
         if short in X.UFUNC2:
@@ -397,6 +409,12 @@ class LenClass:
                 if shp.op == "Cfg":
                     return ("EV", ("count", shp.id))
             return TOP
+        if short == "reshape" and len(pos) == 2 and self._column_shape([pos[1]]):
+            return self.of(pos[0])
+        if short == "expand_dims" and pos:
+            ax = kws.get("axis") or (pos[1] if len(pos) > 1 else None)
+            if ax is not None and ax.op == "Const" and isinstance(ax.attr, int) and ax.attr != 0:
+                return self.of(pos[0])
         if short == "transpose" and len(pos) == 1 and not kws:
             return self._transposed(self.of(pos[0]))
         if short == "swapaxes" and len(pos) == 3 and self._first_last(pos[1], pos[2]):
